@@ -15,11 +15,17 @@ int g_k;                   /* observed model index, arbitrary */
 int g_ret_k;               /* what the probe of model g_k answered */
 unsigned g_calls_k;        /* how many times it was called */
 int g_any_neg;             /* some probe answered < 0 */
+/* witnesses for the native replay driver (native/c14_model_probe_replay.c): the observed slot, what
+ * model_register left in it, -a, what its probe answered (w_ret_k; w_called_k: it was consulted) and
+ * what the LAST other probe consulted answered (w_other_n of them were) */
+int w_k, w_registered, w_has_probe, w_enable_all, w_ret_k, w_called_k, w_other_ret, w_other_n;
 static int probe_k(struct emu *emu)
 {
 	(void) emu;
 	int r = nondet_int();
 	g_ret_k = r;
+	w_ret_k = r;
+	w_called_k = 1;
 	g_calls_k++;
 	if (r < 0)
 		g_any_neg = 1;
@@ -29,6 +35,8 @@ static int probe_other(struct emu *emu)
 {
 	(void) emu;
 	int r = nondet_int();
+	w_other_ret = r;
+	w_other_n++;
 	if (r < 0)
 		g_any_neg = 1;
 	return r;
@@ -83,6 +91,8 @@ void h_model_probe(void)
 	int has_probe_k = registered_k && spec_k.probe != NULL;
 	int enable_all = emu.args.enable_all_models;
 	unsigned err0 = g_err;
+	w_k = k; w_registered = registered_k != 0; w_has_probe = has_probe_k; w_enable_all = enable_all;
+	w_ret_k = 0; w_called_k = 0; w_other_ret = 0; w_other_n = 0;
 
 	int r = model_probe(&model, &emu);
 
@@ -110,15 +120,17 @@ void h_model_probe(void)
  * ===================================================================================== */
 unsigned g_ev_calls;
 int g_ev_ret;
+int w_evret;               /* the handler's verdict, for the native replay driver */
 static int stub_event(struct emu *emu)
 {
 	(void) emu;
 	g_ev_calls++;
 	g_ev_ret = nondet_int();
+	w_evret = g_ev_ret;
 	return g_ev_ret;
 }
 
-int w_index, w_registered, w_enabled, w_has_handler;
+int w_index, w_enabled, w_has_handler;   /* (w_registered: declared above, shared with model_probe) */
 WITNESS(model_event);
 #define EV_LEGAL(model, index) ((model)->registered[index] != 0 && (model)->enabled[index] != 0)
 
@@ -134,7 +146,7 @@ __CPROVER_requires(g_ev_calls < 1000u && DIAG_PRE)
 __CPROVER_requires(WBIND(model_event, w_index == index && w_registered == (model->registered[index] != 0) &&
 	w_enabled == (model->enabled[index] != 0) &&
 	w_has_handler == (model->registered[index] != 0 && model->spec[index]->event != NULL)))
-__CPROVER_assigns(DIAG_FRAME, g_ev_calls, g_ev_ret)
+__CPROVER_assigns(DIAG_FRAME, g_ev_calls, g_ev_ret, w_evret)
 __CPROVER_ensures(__CPROVER_return_value == 0 || __CPROVER_return_value == -1)
 /* rejected without consulting the model */
 __CPROVER_ensures(EV_LEGAL(model, index) || (__CPROVER_return_value == -1 &&
